@@ -144,7 +144,19 @@ func (fc *FnCtx) findLoops() {
 	for _, li := range fc.loops {
 		hs = append(hs, li)
 	}
-	sort.Slice(hs, func(i, j int) bool { return fc.blockPos(hs[i]) < fc.blockPos(hs[j]) })
+	// (ties - loops without any position - are broken by the header's block index, and an
+	// enclosing loop comes before the loops it contains, so that the numbering never depends
+	// on map iteration order)
+	sort.Slice(hs, func(i, j int) bool {
+		pi, pj := fc.blockPos(hs[i]), fc.blockPos(hs[j])
+		if pi != pj {
+			return pi < pj
+		}
+		if hs[i].body[hs[j].header] != hs[j].body[hs[i].header] {
+			return hs[i].body[hs[j].header]
+		}
+		return hs[i].header.Index < hs[j].header.Index
+	})
 	for i, li := range hs {
 		li.index = i
 		if fc.con != nil {
@@ -247,7 +259,7 @@ func (fc *FnCtx) blockPos(li *loopInfo) token.Pos {
 			if p := in.Pos(); p.IsValid() && p < best {
 				best = p
 			}
-			if d, ok := in.(*ssa.DebugRef); ok && d.Expr.Pos() < best {
+			if d, ok := in.(*ssa.DebugRef); ok && d.Expr.Pos().IsValid() && d.Expr.Pos() < best {
 				best = d.Expr.Pos()
 			}
 		}
